@@ -17,6 +17,9 @@ pub struct TrainSpec {
     pub pdu: Pdu,
     /// payload sizes of first + intermediates (the end packet carries the rest); length = fragments - 1
     pub cuts: Vec<u16>,
+    /// the first fragment carries an extension chain (part of the PDU's own metadata)
+    #[serde(default)]
+    pub ext: bool,
 }
 
 #[derive(Clone, Copy, Debug, PartialEq, Eq, Hash, Serialize, Deserialize)]
@@ -68,6 +71,14 @@ fn s0(start: bool, end: bool, id: u8, payload: Vec<u8>, crc: Option<u32>) -> Vec
     RefPacket { start, end, lt: 3, frag_id: Some(id), total_len: None, label: vec![], exts: vec![], ptype: None, first_type: None, payload, crc }.encode(false)
 }
 
+fn train_exts(t: &TrainSpec) -> Vec<ExtSpec> {
+    if t.ext {
+        vec![ExtSpec { id: 0x0300 | t.id as u16, data: vec![t.id, 1, 2, 3] }, ExtSpec { id: 0x0100 | (t.ptype & 0xFF), data: vec![] }]
+    } else {
+        vec![]
+    }
+}
+
 fn alias_id(id: u8, k: u8) -> u8 {
     if id as u16 + k as u16 <= 255 {
         id + k
@@ -84,8 +95,9 @@ fn check_scenario(sc: &Scenario, st: &mut Stats) -> Result<(), String> {
     let mut pkts_reuse: Vec<Vec<Vec<u8>>> = vec![];
     for (t, p) in sc.trains.iter().zip(pdus.iter()) {
         let cuts: Vec<usize> = t.cuts.iter().map(|c| *c as usize).collect();
-        pkts.push(ref_train(t.lab, t.ptype, t.id, p, &cuts));
-        pkts_reuse.push(ref_train(Lab::ReUse, t.ptype, t.id, p, &cuts));
+        let exts = train_exts(t);
+        pkts.push(ref_train_ext(t.lab, t.ptype, t.id, p, &cuts, &exts));
+        pkts_reuse.push(ref_train_ext(Lab::ReUse, t.ptype, t.id, p, &cuts, &exts));
     }
     // merged sequence
     let mut next = vec![0usize; sc.trains.len()];
@@ -221,7 +233,7 @@ fn check_scenario(sc: &Scenario, st: &mut Stats) -> Result<(), String> {
         // model first
         enum Expect {
             Fragmented(usize),
-            Deliver(Vec<u8>, Lab, u16),
+            Deliver(Vec<u8>, Lab, u16, Vec<(u16, Vec<u8>)>),
             NoDelivery,
         }
         let expect = match &it.role {
@@ -239,7 +251,7 @@ fn check_scenario(sc: &Scenario, st: &mut Stats) -> Result<(), String> {
                 } else if slot[r] == Some((id, *t)) && !lost[*t] {
                     if *is_end {
                         slot[r] = None;
-                        Expect::Deliver(pdus[*t].clone(), sc.trains[*t].lab, sc.trains[*t].ptype)
+                        Expect::Deliver(pdus[*t].clone(), sc.trains[*t].lab, sc.trains[*t].ptype, train_exts(&sc.trains[*t]).iter().map(|e| (e.id, e.data.clone())).collect())
                     } else {
                         Expect::Fragmented(*t)
                     }
@@ -257,7 +269,7 @@ fn check_scenario(sc: &Scenario, st: &mut Stats) -> Result<(), String> {
                 }
                 Expect::NoDelivery
             }
-            Role::Complete { pdu, lab } => Expect::Deliver(pdu.clone(), *lab, if *lab == Lab::Broadcast { 0x86DD } else { 0x0800 }),
+            Role::Complete { pdu, lab } => Expect::Deliver(pdu.clone(), *lab, if *lab == Lab::Broadcast { 0x86DD } else { 0x0800 }, vec![]),
             Role::StrayFirst { tag, id } => {
                 let r = *id as usize % k;
                 if let Some((_, otag)) = slot[r] {
@@ -272,7 +284,7 @@ fn check_scenario(sc: &Scenario, st: &mut Stats) -> Result<(), String> {
             }
             Role::StrayEnd { id, pdu, lab, .. } => {
                 slot[*id as usize % k] = None;
-                Expect::Deliver(pdu.clone(), *lab, 0x0801)
+                Expect::Deliver(pdu.clone(), *lab, 0x0801, vec![])
             }
         };
         let r = call_decap(&mut d, &it.bytes);
@@ -282,12 +294,24 @@ fn check_scenario(sc: &Scenario, st: &mut Stats) -> Result<(), String> {
                 if *n != it.bytes.len() {
                     return st.violation("consumed", format!("{}: consumed {} of {}", desc(i, it), n, it.bytes.len()));
                 }
+                if *t != usize::MAX {
+                    let want: Vec<(u16, Vec<u8>)> = train_exts(&sc.trains[*t]).iter().map(|e| (e.id, e.data.clone())).collect();
+                    let got: Vec<(u16, Vec<u8>)> = md.extensions().iter().map(super::c13::ext_bytes).collect();
+                    if got != want {
+                        return st.violation("fragment-metadata", format!("{}: fragmented status carries extensions {:?}, the train has {:?}", desc(i, it), got, want));
+                    }
+                    st.class_if(!want.is_empty(), "train-with-extensions");
+                }
                 if *t != usize::MAX && (Lab::of(&md.label()) != sc.trains[*t].lab || md.protocol_type() != sc.trains[*t].ptype) {
                     return st.violation("fragment-metadata", format!("{}: fragmented status carries {:?}/{:#06x}, the train has {:?}/{:#06x}", desc(i, it), md.label(), md.protocol_type(), sc.trains[*t].lab, sc.trains[*t].ptype));
                 }
             }
             (Expect::Fragmented(_), o) => return st.violation("fragment-rejected", format!("{}: a packet of a live train must return FragmentedPkt, got {}", desc(i, it), show_dec(&Ok(o.clone().unwrap())))),
-            (Expect::Deliver(pdu, lab, ptype), Ok(Ok((DecapStatus::CompletedPkt(b, md), n)))) => {
+            (Expect::Deliver(pdu, lab, ptype, exts), Ok(Ok((DecapStatus::CompletedPkt(b, md), n)))) => {
+                let got_exts: Vec<(u16, Vec<u8>)> = md.extensions().iter().map(super::c13::ext_bytes).collect();
+                if &got_exts != exts {
+                    return st.violation("wrong-delivery-extensions", format!("{}: delivered with extensions {:?}, the PDU's own are {:?}", desc(i, it), got_exts, exts));
+                }
                 if md.pdu_len() != pdu.len() || b[..pdu.len().min(b.len())] != pdu[..] || Lab::of(&md.label()) != *lab || md.protocol_type() != *ptype || *n != it.bytes.len() {
                     return st.violation("wrong-delivery", format!("{}: delivered pdu_len {} label {:?} ptype {:#06x}, expected pdu_len {} {:?} {:#06x} (bytes equal: {})", desc(i, it), md.pdu_len(), md.label(), md.protocol_type(), pdu.len(), lab, ptype, b[..pdu.len().min(b.len())] == pdu[..]));
                 }
@@ -355,7 +379,7 @@ fn enum_table(t: Tier) -> &'static Vec<Scenario> {
                 let trains: Vec<TrainSpec> = cfg
                     .iter()
                     .enumerate()
-                    .map(|(i, f)| TrainSpec { id: i as u8, lab: labs[i % 3], ptype: 0x0800 + i as u16, pdu: Pdu { len: 11 + 7 * i as u32 + 3 * *f as u32, seed: 50 + i as u32 }, cuts: (0..f - 1).map(|j| 2 + j as u16).collect() })
+                    .map(|(i, f)| TrainSpec { id: i as u8, lab: labs[i % 3], ptype: 0x0800 + i as u16, pdu: Pdu { len: 11 + 7 * i as u32 + 3 * *f as u32, seed: 50 + i as u32 }, cuts: (0..f - 1).map(|j| 2 + j as u16).collect(), ext: i % 2 == 1 })
                     .collect();
                 let total: usize = cfg.iter().sum();
                 for (merge, same) in all_merges(cfg).into_iter().flat_map(|m| [(m.clone(), false), (m, true)]) {
@@ -402,7 +426,7 @@ fn desc_enum(t: Tier, i: u64) -> Value {
 
 fn gen_strategy(t: Tier) -> BoxedStrategy<Scenario> {
     let _ = t;
-    let train = (lab_addr_or_bcast(), ptype_user(), 8u32..6000, pdu_seed(), prop::collection::vec(1u16..1500, 1..5));
+    let train = (lab_addr_or_bcast(), ptype_user(), 8u32..6000, pdu_seed(), prop::collection::vec(1u16..1500, 1..5), any::<bool>());
     let stray = prop_oneof![
         3 => (0u8..4).prop_map(Stray::InterAlias),
         3 => (0u8..4).prop_map(Stray::EndAlias),
@@ -429,9 +453,9 @@ fn gen_strategy(t: Tier) -> BoxedStrategy<Scenario> {
                 .into_iter()
                 .take(n)
                 .zip(ids)
-                .map(|((lab, ptype, len, seed, cuts), id)| {
+                .map(|((lab, ptype, len, seed, cuts, ext), id)| {
                     let maxcut = (len as usize / (cuts.len() + 1)).max(1) as u16;
-                    TrainSpec { id, lab, ptype, pdu: Pdu { len, seed }, cuts: cuts.into_iter().map(|c| c.min(maxcut)).collect() }
+                    TrainSpec { id, lab, ptype, pdu: Pdu { len, seed }, cuts: cuts.into_iter().map(|c| c.min(maxcut)).collect(), ext }
                 })
                 .collect();
             let mut merge: Vec<u8> = vec![];
@@ -458,7 +482,7 @@ pub fn property() -> Property {
                 exhaustive: |_| true,
                 check: check_enum,
                 describe: desc_enum,
-                required_classes: &["interleaved", "stray-aliases-open-slot", "first-fragment-preempts-open-train", "first-fragment-with-re-use-label"],
+                required_classes: &["interleaved", "stray-aliases-open-slot", "first-fragment-preempts-open-train", "first-fragment-with-re-use-label", "train-with-extensions"],
             }),
             Box::new(GenPart {
                 name: "random-interleavings",
